@@ -247,7 +247,7 @@ func runCheck(e *env, p *propSpec, tier string) int {
 					isKnown = true
 				}
 			}
-			if !isKnown {
+			if !isKnown && os.Getenv("VERIF_KEEP_GOING") == "" {
 				stop = true
 			}
 		}
@@ -281,6 +281,11 @@ func runCheck(e *env, p *propSpec, tier string) int {
 	}
 	// Violations.
 	keys := sortedKeys(a.owned)
+	if os.Getenv("VERIF_KEEP_GOING") != "" {
+		for _, k := range keys {
+			fmt.Printf("vcheck: distinct violation %s (seed %d): %s\n", k, a.owned[k].res.Params.Seed, trimLines(a.owned[k].v.Detail, 2))
+		}
+	}
 	reported := 0
 	for _, k := range keys {
 		f := a.owned[k]
@@ -296,6 +301,17 @@ func runCheck(e *env, p *propSpec, tier string) int {
 		// confirm by replay in a fresh process
 		rp := f.res.Params
 		rp.Replay, rp.Plan, rp.Sched, rp.KeepLog = true, f.res.PlanTape, f.res.SchedTape, 4000
+		if len(f.v.ReplayOpt) > 0 {
+			// an enumerating run points at the single sub-run that failed
+			opt := map[string]string{}
+			for k, v := range rp.Opt {
+				opt[k] = v
+			}
+			for k, v := range f.v.ReplayOpt {
+				opt[k] = v
+			}
+			rp.Opt = opt
+		}
 		rr, o := e.runOne(rp)
 		if rr == nil || !hasClause(rr, f.v.Clause) {
 			msg := "worker produced no result"
